@@ -85,7 +85,7 @@ char *ctime_r(const time_t *, char *);
  * @retval  ESNULLP    when dest or tm is a NULL pointer
  * @retval  ESLEMIN    when dmax < 26 or *timer < 0
  * @retval  ESLEMAX    when dmax > RSIZE_MAX_STR.
- *                     Or when *timer > 313360441200L, the year 10000,
+ *                     Or when *timer >= 253402300800L, the year 10000,
  *                     resp. LONG_MAX on 32bit systems.
  * @retval  EOVERFLOW  when dmax > size of dest (optionally, when the compiler
  *                     knows the object_size statically)
@@ -145,7 +145,12 @@ EXPORT errno_t _ctime_s_chk(char *dest, rsize_t dmax, const time_t *timer,
         return ESLEMIN;
     }
     /* 32bit have a lower limit: -Werror=type-limits (long) */
+#if SIZEOF_TIME_T >= 8
+    /* 01.01.10000 00:00 UTC: ctime_r has no room for a 5 digit year */
+    if (unlikely(*timer >= 253402300800L)) {
+#else
     if (unlikely(*timer >= MAX_TIME_T_STR)) { /* year 10000 */
+#endif
         handle_error(dest, dmax, "ctime_s: timer is too large", ESLEMAX);
         return ESLEMAX;
     }
